@@ -227,7 +227,7 @@ theorem method_called_exactly_once_per_update_iff_a_dependency_changed (table : 
 /-- **Full statement (b): exactly once per batch** — false of the code (recorded finding
 `value-and-slot-two-groups`). -/
 def C06_full_batch : Prop :=
-  ∀ (table : List Entry) (vals : List (Key × Int)) (e : Entry) (body : List Simple) (w' : IWorld),
+  ∀ (table : List Entry) (vals : List (Key × Int)) (e : Entry) (body : List SimpleOp) (w' : IWorld),
     (table.map (·.name)).Nodup → e ∈ table → (∀ d ∈ e.deps, d.cls = e.origin) →
     runOp (instantiate table vals) (.batch body) = (true, w') →
     w'.log.count e.name = (instantiate table vals).log.count e.name +
@@ -236,7 +236,7 @@ def C06_full_batch : Prop :=
 /-- witness (design probe p21): `@depends('p', 'q:bounds', watch=True) m`, one batch changing both -/
 def witnessEntry : Entry := ⟨"m", false, false, [⟨0, "p", "value"⟩, ⟨0, "q", "bounds"⟩], 0⟩
 def witnessVals : List (Key × Int) := [(⟨"p", "value"⟩, 0), (⟨"q", "bounds"⟩, 0)]
-def witnessBody : List Simple := [.set ⟨"p", "value"⟩ 1, .set ⟨"q", "bounds"⟩ 1]
+def witnessBody : List SimpleOp := [.set ⟨"p", "value"⟩ 1, .set ⟨"q", "bounds"⟩ 1]
 
 theorem C06_full_batch_refuted : ¬ C06_full_batch := by
   intro H
@@ -251,7 +251,7 @@ dependencies are of one kind (all values, or all the same Parameter attribute). 
 depending on a value AND a Parameter attribute (`'p'`, `'q:bounds'`) — it has one watcher per kind
 and a batch changing both calls it once per kind. -/
 theorem method_called_exactly_once_per_batch_iff_a_dependency_changed_partial (table : List Entry) (w w' : IWorld)
-    (e : Entry) (body : List Simple) (hW : InstanceWorld table w) (hn : (table.map (·.name)).Nodup) (he : e ∈ table)
+    (e : Entry) (body : List SimpleOp) (hW : InstanceWorld table w) (hn : (table.map (·.name)).Nodup) (he : e ∈ table)
     (hcls : ∀ d ∈ e.deps, d.cls = e.origin) (hkind : ∀ d1 ∈ e.deps, ∀ d2 ∈ e.deps, d1.what = d2.what)
     (hr : runOp w (.batch body) = (true, w')) :
     w'.log.count e.name = w.log.count e.name +
